@@ -47,7 +47,8 @@ COMPONENTS = {
 PROBES = {"thin_pack_completed": 1, "objects_transferred": 1,
           "failed_transfer": 1, "retry_after_fault_ok": 1, "shallow_fetch": 1,
           "second_fetch_after_growth": 1, "fetch_into_shallow_repo": 1,
-          "hostile_want_refused": 1}
+          "hostile_want_refused": 1, "http_server_exception": 1,
+          "failed_after_refs_changed": 1}
 MIN_BUDGET = 120
 
 
@@ -58,7 +59,7 @@ def budget(tier):
 def gen_plan(seed, tier):
     rng = random.Random(derive_seed(seed, "c05plan"))
     op = rng.choice(["fetch", "fetch", "fetch", "clone", "push", "push"])
-    transport = rng.choice(["net", "net", "net", "local"])
+    transport = rng.choice(["net", "net", "net", "local", "http", "http"])
     pol = rng.choice(["uniform", "burst", "burst", "targeted"])
     sched = {"policy": pol}
     if pol == "burst":
@@ -100,15 +101,34 @@ def gen_plan(seed, tier):
                 "faults": faults},
         "rbuf": rng.choice([8192, 16, 1]),
     }
+    # smart HTTP: stateless requests against dulwich.web, optionally with a
+    # second process changing or maintaining the served repository meanwhile
+    plan["http_faults"] = []
+    plan["mutator"] = []
+    if transport == "http":
+        if rng.random() < 0.25:
+            plan["http_faults"].append({
+                "req": rng.choice([0, 1, 1, 2]),
+                "kind": rng.choice(["reset-before", "reset-after", "truncate",
+                                    "truncate"]),
+                "at": rng.choice([0, 1, 10, 100, 1000, 5000])})
+        if rng.random() < 0.5:
+            ops = ["pack_refs", "repack", "pack_loose", "gc_default"] \
+                if op == "push" else \
+                ["pack_refs", "repack", "pack_loose", "gc_default", "gc_now",
+                 "move_fwd", "move_fwd", "rewind", "delete", "create"]
+            plan["mutator"] = [rng.choice(ops)
+                               for _ in range(rng.randint(1, 3))]
     # a client that asks for an object the server holds but does not
     # advertise, next to legitimate wants (a raced or hostile request)
-    plan["hostile_want"] = (op == "fetch" and transport == "net" and
+    plan["hostile_want"] = (op == "fetch" and transport in ("net", "http") and
                             plan["garbage"] and rng.random() < 0.2)
     # second stage: the sender's history grows (optionally by a merge of a
     # side branch forked from any older commit, possibly below a shallow
     # boundary) and the receiver fetches again, plain or deepening
     plan["second"] = None
-    if op in ("fetch", "clone") and not faults and rng.random() < (
+    if op in ("fetch", "clone") and not faults and \
+            not plan["http_faults"] and rng.random() < (
             0.6 if plan["depth"] else 0.25):
         plan["second"] = {"grow": rng.randint(1, 3),
                           "side": rng.random() < 0.7,
@@ -270,13 +290,79 @@ def run_plan(plan):
         conn2 = None
         if conn is not None and plan["net"]["faults"]:
             conn2 = simnet.Conn(sim, "r", cap=None, chunk_max=None)
+        http = http2 = None
+        ever_values = set(srefs.values())
+        mut = {"ref_changing": False, "done": False}
+        if plan["transport"] == "http":
+            from dulwich.server import FileSystemBackend
+            http = nettransport.HttpSim(
+                sim, FileSystemBackend(), handlers,
+                faults=plan.get("http_faults") or [],
+                chunk_max=plan["net"]["chunk_max"], rbuf=max(
+                    plan["rbuf"], 16))
+            if plan.get("http_faults"):
+                http2 = nettransport.HttpSim(
+                    sim, FileSystemBackend(), handlers, name="retry",
+                    rbuf=max(plan["rbuf"], 16))
         conn3 = None
         second = plan.get("second")
         if conn is not None and second:
             conn3 = simnet.Conn(sim, "s", cap=plan["net"]["cap"],
                                 chunk_max=plan["net"]["chunk_max"])
-        cur = {"conn": conn}
+        cur = {"conn": conn, "http": http}
         _hook_thin(sim)
+
+        def mutator_body(a):
+            """A second process on the served repository."""
+            from dulwich.gc import garbage_collect
+            r = Repo(server_path)
+            mrng = random.Random(derive_seed(plan["seed"], "c05mut"))
+            try:
+                for j, mop in enumerate(plan["mutator"]):
+                    heads = sorted(n for n in r.refs.keys()
+                                   if n.startswith(b"refs/heads/"))
+                    if mop == "pack_refs":
+                        r.refs.pack_refs(all=True)
+                    elif mop == "repack":
+                        r.object_store.repack()
+                    elif mop == "pack_loose":
+                        r.object_store.pack_loose_objects()
+                    elif mop == "gc_default":
+                        garbage_collect(r)
+                    elif mop == "gc_now":
+                        mut["ref_changing"] = True  # may remove what an
+                        # earlier advertisement offered
+                        garbage_collect(r, grace_period=None)
+                    elif mop in ("move_fwd", "create") and heads:
+                        mut["ref_changing"] = True
+                        name = mrng.choice(heads)
+                        tip = r.refs[name]
+                        blob = u.blob(b"mut %d %d\n" % (plan["seed"], j))
+                        tree = u.tree([(b"m%d.txt" % j, 0o100644, blob)])
+                        top = u.commit(tree, [tip] if tip in u.objs else [],
+                                       1700700000 + j, b"mutator %d\n" % j)
+                        u.add_to_store(r.object_store, [blob, tree, top])
+                        ever_values.add(top)
+                        if mop == "create":
+                            name = b"refs/heads/created%d" % j
+                        r.refs[name] = top
+                    elif mop == "rewind" and heads:
+                        name = mrng.choice(heads)
+                        tip = r.refs[name]
+                        ps = u.parents(tip) if tip in u.objs else []
+                        if ps:
+                            mut["ref_changing"] = True
+                            r.refs[name] = ps[0]
+                    elif mop == "delete" and len(heads) > 1:
+                        mut["ref_changing"] = True
+                        head_t = r.refs.get_symrefs().get(b"HEAD")
+                        cands = [n for n in heads if n != head_t]
+                        if cands:
+                            del r.refs[mrng.choice(cands)]
+                    sim.stat("mutator:" + mop)
+            finally:
+                mut["done"] = True
+                r.close()
 
         def server3_body(a):
             from dulwich.server import FileSystemBackend
@@ -330,6 +416,11 @@ def run_plan(plan):
             if plan["transport"] == "local":
                 c = LocalGitClient(thin_packs=True,
                                    include_tags=plan["include_tags"])
+            elif plan["transport"] == "http":
+                c = nettransport.make_http_client(
+                    sim, cur["http"],
+                    thin_packs="thin-pack" not in plan["client_drop"],
+                    include_tags=plan["include_tags"])
             else:
                 c = nettransport.make_client(
                     sim, lambda cmd, path: cur["conn"].a, rbuf=plan["rbuf"],
@@ -418,11 +509,24 @@ def run_plan(plan):
                     outcome["second_failed"] = True
             if conn3 is not None:
                 conn3.a.close()
+            if http2 is not None and "error" in outcome and op != "clone":
+                outcome["first_error"] = outcome.pop("error")
+                outcome["state_after_failure"] = _receiver_state()
+                outcome.pop("wants_all", None)  # nothing of it arrived
+                cur["http"] = http2
+                try:
+                    do_transfer(mk_client())
+                    outcome["ok"] = True
+                    outcome["retried"] = True
+                except Exception as e:  # noqa: BLE001
+                    outcome["error"] = e
+                    outcome["retry_failed"] = True
             if conn2 is not None:
                 if "error" in outcome and op != "clone":
                     # bounded liveness: the same operation, faults off
                     outcome["first_error"] = outcome.pop("error")
                     outcome["state_after_failure"] = _receiver_state()
+                    outcome.pop("wants_all", None)  # nothing of it arrived
                     cur["conn"] = conn2
                     try:
                         do_transfer(mk_client())
@@ -450,10 +554,17 @@ def run_plan(plan):
             sim.actor("server2", server2_body)
         if conn3 is not None:
             sim.actor("server3", server3_body)
+        if plan.get("mutator"):
+            sim.actor("mutator", mutator_body)
         sim.run()
         gc.collect()
         faulted = bool(plan["net"]["faults"]) and plan["transport"] == "net"
-        netfired = any(k.startswith("fault:net-") for k in sim.stats)
+        netfired = any(k.startswith(("fault:net-", "fault:http-"))
+                       for k in sim.stats)
+        if http is not None and (http.server_errors or (
+                http2 is not None and http2.server_errors)):
+            outcome["server_errors"] = http.server_errors + (
+                http2.server_errors if http2 is not None else [])
         if sim.abort_reason:
             viols.append({"sig": f"C05/{sim.abort_reason}/{op}/"
                           f"{'with-fault' if netfired else 'fault-free'}",
@@ -545,7 +656,8 @@ def run_plan(plan):
                                     sim.stat("probe:tag_followed")
                 stray = sorted(i for i in new_ids
                                if i in u.objs and i not in allowed)
-                adv_closure = u.closure(list(srefs.values()))
+                adv_closure = u.closure(list(set(srefs.values()) |
+                                             ever_values))
                 if op != "push":
                     # whatever was asked: nothing the sender does not
                     # advertise may arrive
@@ -587,6 +699,8 @@ def run_plan(plan):
                         f"{outcome.get('first_error')!r}"})
         if outcome.get("retry_failed") and outcome.get("hostile") is not None:
             sim.stat("probe:hostile_want_refused")
+        elif outcome.get("retry_failed") and mut["ref_changing"]:
+            sim.stat("probe:failed_after_refs_changed")
         elif outcome.get("retry_failed"):
             viols.append({
                 "sig": f"C05/no-progress-after-faults/{op}/"
@@ -601,6 +715,17 @@ def run_plan(plan):
             elif outcome.get("hostile") is not None:
                 # asking for an unadvertised object is rightly refused
                 sim.stat("probe:hostile_want_refused")
+            elif mut["ref_changing"]:
+                # the served refs changed under a stateless exchange: what
+                # was advertised may rightly be refused a moment later
+                sim.stat("probe:failed_after_refs_changed")
+            elif plan.get("mutator") and not netfired and \
+                    not sim.abort_reason:
+                # not promised by C05 (C10's reader clause is where a
+                # spurious failure under maintenance belongs): counted only
+                sim.stat("probe:failed_during_maintenance")
+                sim.stat("failed_during_maintenance:" +
+                         type(err).__name__)
             elif not netfired and not sim.abort_reason:
                 viols.append({
                     "sig": f"C05/failed-without-fault/{op}/"
@@ -721,6 +846,14 @@ def shrink(plan):
     if plan.get("hostile_want"):
         p = cp()
         p["hostile_want"] = False
+        yield p
+    if plan.get("http_faults"):
+        p = cp()
+        p["http_faults"] = []
+        yield p
+    for i in range(len(plan.get("mutator") or [])):
+        p = cp()
+        del p["mutator"][i]
         yield p
     for k, v in (("cap", None), ("chunk_max", None)):
         if plan["net"][k] != v:
